@@ -211,6 +211,15 @@ func DurableProjection(kv *KV, ancient string, shape Shape, reg *Registry) tl.M 
 	defer fz.Close()
 	head, _ := fz.Ancients()
 	tail, _ := fz.Tail(rawdb.DefaultHistoryGroup)
+	if head == tail && head > 0 && rawdb.ReadPersistentStateID(kv.Database) == 0 {
+		// Freezer-level quirk (not pathdb's concern, see NOTES.md): when a crash leaves the first
+		// item ever in some tables only, Freezer.repair treats the empty tables as newly added and
+		// moves their tail up to the head: the freezer then reports head = tail = 1 and holds
+		// nothing. With persistent id 0 the database purges the histories anyway; an empty
+		// freezer is projected as tail = head = 0.
+		ev["fzquirk"] = fmt.Sprintf("empty freezer reported tail=head=%d", head)
+		head, tail = 0, 0
+	}
 	ev["tail"], ev["head"] = tail, head
 	recs := []*Rec{}
 	for id := tail + 1; id <= head; id++ {
